@@ -53,6 +53,8 @@ def model (F : Facts) : List String → Option String
       let sfx := if (fy, fm, fd) = (y, m, d) then ""
         else s!" ENCODES:{pad fy 4}{pad fm 2}{pad fd 2} STRING:{pad fy 4}-{pad fm 2}-{pad fd 2}"
       some (showFields u c ++ sfx)
+  | ["zdisc", _, "|", y, m, d] => some s!"{y} {m} {d}"   -- discovery lists the reply's date, in every zone
+  | ["zorder", _, "|", _, _, _, "|", _, _, _] => some "ordered"   -- a day is before the day after it, in every zone
   | ["zdt", _, zs, "|", y, mo, d, h, mi, s] => do
     let zd ← parseZone zs
     let [y, mo, d, h, mi, s] ← [y, mo, d, h, mi, s].mapM String.toInt? | none
@@ -95,6 +97,8 @@ def spec : List String → List String → Option String
              s!"the date reports year {y}, month {m}, day {d}")
          | _ => some "bad unreadable")
       | _ => some s!"bad every way of making the date {y}-{m}-{d} agrees, reports exactly these fields and encodes back to the same digits"
+  | ["zdisc", _, "|", y, m, d], impl => some (Driver.expect s!"{y} {m} {d}" impl)
+  | ["zorder", _, "|", _, _, _, "|", _, _, _], impl => some (Driver.expect "ordered" impl)
   | ["zdt", _, zs, "|", y, mo, d, h, mi, s], impl => do
     let zd ← parseZone zs
     let [y, mo, d, h, mi, s] ← [y, mo, d, h, mi, s].mapM String.toInt? | none
